@@ -309,7 +309,14 @@ class Interp:
         return outs + abn
 
     def ev_AddrOf(self, e, st):
-        return self.ev(e['e'], st)
+        outs = self.ev(e['e'], st)
+        inner = e['e']
+        if e.get('mut') and inner.get('k') == 'Path' and inner.get('res') == 'local' and st.env.get(inner['bind'], ('unk',))[0] in ('vec', 'vecpush'):
+            # `&mut v` of a local whose elements are tracked is handed to code without a model (the modelled uses - encode_into,
+            # mem::take / replace - are intercepted before their arguments are evaluated): it may change the vector, so the local
+            # no longer holds the tracked elements afterwards
+            outs = [Out(o.kind, o.val, o.st.set(inner['bind'], ('unk', 'vector after &mut'))) if o.kind == 'val' else o for o in outs]
+        return outs
 
     def ev_Cast(self, e, st):
         outs = []
@@ -1177,8 +1184,18 @@ class Interp:
                     return outs + abn
         res, abn = self.seq([e['recv']] + e['args'], st)
         outs = []
+        # a `&mut self` method without a model above, called on a local whose elements are tracked ('vec'): whatever it does to the
+        # vector (clear, truncate, sort, retain ...) is not known, so the local no longer holds the tracked elements afterwards
+        recv = hirq.peel_refs(e['recv'])
+        forget = None
+        if recv['k'] == 'Path' and recv.get('res') == 'local' and str(e['recv'].get('adj_ty') or '').startswith('&mut') \
+                and st.env.get(recv['bind'], ('unk',))[0] in ('vec', 'vecpush') and cal.rsplit('::', 1)[-1] not in ('reserve', 'reserve_exact', 'shrink_to_fit'):
+            forget = recv['bind']
         for vals, s in res:
-            outs.extend(self.call(cal, vals, e, s))
+            for o in self.call(cal, vals, e, s):
+                if forget is not None and o.kind == 'val':
+                    o = Out('val', o.val, o.st.set(forget, ('unk', 'vector after %s()' % cal.rsplit('::', 1)[-1])))
+                outs.append(o)
         return outs + abn
 
     def apply(self, fv, args, node, st):
